@@ -299,4 +299,227 @@ theorem skipped_run {c : Cfg} {i : Nat} : ∀ (es : List Ev) (s s' : St), Inv c 
       exact ⟨h2.1, h2.2.trans h1.2⟩
     · cases h
 
+/-! ### termination of the pool's own steps: every progress step moves one task one phase forward -/
+
+def rank : Phase → Nat
+  | .check => 4 | .select => 3 | .queued => 2 | .held => 1 | _ => 0
+
+def muF (ts : List Nat) (f : Nat → Phase) : Nat := (ts.map (fun i => rank (f i))).sum
+
+theorem muF_upd_notin (ts : List Nat) (f : Nat → Phase) (i : Nat) (v : Phase) (h : i ∉ ts) :
+    muF ts (upd f i v) = muF ts f := by
+  induction ts with
+  | nil => rfl
+  | cons a t ih =>
+    simp only [List.mem_cons, not_or] at h
+    have ha : a ≠ i := fun e => h.1 e.symm
+    simp only [muF, List.map_cons, List.sum_cons] at ih ⊢
+    rw [ih h.2, upd_other _ _ ha]
+
+theorem muF_upd_mem (ts : List Nat) (f : Nat → Phase) (i : Nat) (v : Phase) (hn : ts.Nodup) (h : i ∈ ts) :
+    muF ts (upd f i v) + rank (f i) = muF ts f + rank v := by
+  induction ts with
+  | nil => cases h
+  | cons a t ih =>
+    rw [List.nodup_cons] at hn
+    by_cases ha : a = i
+    · subst ha
+      have := muF_upd_notin t f a v hn.1
+      simp only [muF, List.map_cons, List.sum_cons] at this ⊢
+      rw [this, upd_same]; omega
+    · have hi : i ∈ t := by
+        rcases List.mem_cons.mp h with h1 | h1
+        · exact absurd h1.symm ha
+        · exact h1
+      have := ih hn.2 hi
+      simp only [muF, List.map_cons, List.sum_cons] at this ⊢
+      rw [upd_other _ _ ha]; omega
+
+theorem dec_of_upd {ts : List Nat} {f : Nat → Phase} {i : Nat} {v : Phase} (hn : ts.Nodup)
+    (hsup : ∀ j, rank (f j) ≠ 0 → j ∈ ts) (hlt : rank v < rank (f i)) :
+    muF ts (upd f i v) + 1 ≤ muF ts f ∧ ∀ j, rank (upd f i v j) ≠ 0 → j ∈ ts := by
+  have hi : i ∈ ts := hsup i (by omega)
+  have := muF_upd_mem ts f i v hn hi
+  refine ⟨by omega, fun j hj => ?_⟩
+  by_cases hji : j = i
+  · subst hji; exact hi
+  · rw [upd_other _ _ hji] at hj; exact hsup j hj
+
+/-- one progress step: the measure over any duplicate-free list that covers the active tasks drops -/
+theorem progress_step_dec {c : Cfg} {s s' : St} {e : Ev} {ts : List Nat} (hi : Inv c s) (he : e.progress = true)
+    (h : step c s e = some s') (hn : ts.Nodup) (hsup : ∀ j, rank (s.ph j) ≠ 0 → j ∈ ts) :
+    muF ts s'.ph + 1 ≤ muF ts s.ph ∧ ∀ j, rank (s'.ph j) ≠ 0 → j ∈ ts := by
+  cases e with
+  | submit k => cases he
+  | cancel k => cases he
+  | stop => cases he
+  | drainEnd => cases he
+  | check k =>
+    simp only [step] at h
+    split at h
+    · rename_i hp
+      split at h <;> (injection h with h; subst h) <;> exact dec_of_upd hn hsup (by rw [hp]; decide)
+    · cases h
+  | send k =>
+    simp only [step] at h
+    split at h
+    · rename_i hp; injection h with h; subst h
+      exact dec_of_upd hn hsup (by rw [hp.1]; decide)
+    · cases h
+  | ctxReject k =>
+    simp only [step] at h
+    split at h
+    · rename_i hp; injection h with h; subst h
+      exact dec_of_upd hn hsup (by rw [hp.1]; decide)
+    · cases h
+  | take =>
+    simp only [step] at h
+    split at h
+    · cases h
+    · rename_i k rest hq
+      split at h
+      · injection h with h; subst h
+        have h1 := (hi k).1
+        rw [hq] at h1
+        simp only [List.count_cons_self] at h1
+        have hph : s.ph k = .queued := by
+          by_cases hph : s.ph k = .queued
+          · exact hph
+          · rw [b2n_false hph] at h1; omega
+        exact dec_of_upd hn hsup (by rw [hph]; decide)
+      · cases h
+  | exec k =>
+    simp only [step] at h
+    split at h
+    · rename_i hp
+      split at h <;> (injection h with h; subst h) <;> exact dec_of_upd hn hsup (by rw [hp]; decide)
+    · cases h
+
+theorem progress_run_dec {c : Cfg} {ts : List Nat} (hn : ts.Nodup) : ∀ (es : List Ev) (s s' : St), Inv c s →
+    (∀ e ∈ es, e.progress = true) → run c s es = some s' → (∀ j, rank (s.ph j) ≠ 0 → j ∈ ts) →
+    es.length + muF ts s'.ph ≤ muF ts s.ph
+  | [], s, s', _, _, h, _ => by simp only [run] at h; injection h with h; subst h; simp
+  | e :: es, s, s', hi, hp, h, hsup => by
+    simp only [run] at h
+    split at h
+    · rename_i s1 hs
+      have h1 := progress_step_dec hi (hp e (List.mem_cons_self ..)) hs hn hsup
+      have h2 := progress_run_dec hn es s1 s' (inv_step hi hs) (fun e' he' => hp e' (List.mem_cons_of_mem _ he')) h h1.2
+      simp only [List.length_cons]; omega
+    · cases h
+
+theorem rank_le (p : Phase) : rank p ≤ 4 := by cases p <;> decide
+
+theorem muF_le (ts : List Nat) (f : Nat → Phase) : muF ts f ≤ 4 * ts.length := by
+  induction ts with
+  | nil => simp [muF]
+  | cons a t ih =>
+    have := rank_le (f a)
+    simp only [muF, List.map_cons, List.sum_cons, List.length_cons] at ih ⊢
+    omega
+
+/-! ### a finite, duplicate-free cover of the tasks that were ever submitted -/
+
+theorem upd_idle {f : Nat → Phase} {k j : Nat} {v : Phase} (hj : upd f k v j ≠ .idle) (hk : f k ≠ .idle) :
+    f j ≠ .idle := by
+  by_cases hjk : j = k
+  · subst hjk; exact hk
+  · rwa [upd_other _ _ hjk] at hj
+
+theorem idle_stays {c : Cfg} {s s' : St} {e : Ev} (hi : Inv c s) (h : step c s e = some s') (j : Nat)
+    (hj : s'.ph j ≠ .idle) : s.ph j ≠ .idle ∨ e = .submit j := by
+  cases e with
+  | submit k =>
+    simp only [step] at h
+    split at h
+    · injection h with h; subst h
+      by_cases hjk : j = k
+      · subst hjk; exact Or.inr rfl
+      · left
+        have hj' : upd s.ph k .check j ≠ .idle := hj
+        rwa [upd_other _ _ hjk] at hj'
+    · cases h
+  | check k =>
+    simp only [step] at h
+    split at h
+    · rename_i hp
+      split at h <;> (injection h with h; subst h) <;> exact Or.inl (upd_idle hj (by rw [hp]; decide))
+    · cases h
+  | send k =>
+    simp only [step] at h
+    split at h
+    · rename_i hp; injection h with h; subst h
+      exact Or.inl (upd_idle hj (by rw [hp.1]; decide))
+    · cases h
+  | ctxReject k =>
+    simp only [step] at h
+    split at h
+    · rename_i hp; injection h with h; subst h
+      exact Or.inl (upd_idle hj (by rw [hp.1]; decide))
+    · cases h
+  | take =>
+    simp only [step] at h
+    split at h
+    · cases h
+    · rename_i k rest hq
+      split at h
+      · injection h with h; subst h
+        have h1 := (hi k).1
+        rw [hq] at h1
+        simp only [List.count_cons_self] at h1
+        have hph : s.ph k = .queued := by
+          by_cases hph : s.ph k = .queued
+          · exact hph
+          · rw [b2n_false hph] at h1; omega
+        exact Or.inl (upd_idle hj (by rw [hph]; decide))
+      · cases h
+  | exec k =>
+    simp only [step] at h
+    split at h
+    · rename_i hp
+      split at h <;> (injection h with h; subst h) <;> exact Or.inl (upd_idle hj (by rw [hp]; decide))
+    · cases h
+  | cancel k => simp only [step] at h; injection h with h; subst h; exact Or.inl hj
+  | stop => simp only [step] at h; injection h with h; subst h; exact Or.inl hj
+  | drainEnd =>
+    simp only [step] at h
+    split at h
+    · injection h with h; subst h; exact Or.inl hj
+    · cases h
+
+def Covered (s : St) : Prop := ∃ ts : List Nat, ts.Nodup ∧ ∀ j, s.ph j ≠ .idle → j ∈ ts
+
+theorem covered_init : Covered init := ⟨[], List.nodup_nil, fun _ hj => absurd rfl hj⟩
+
+theorem covered_step {c : Cfg} {s s' : St} {e : Ev} (hi : Inv c s) (hc : Covered s) (h : step c s e = some s') :
+    Covered s' := by
+  obtain ⟨ts, hn, hcov⟩ := hc
+  cases e with
+  | submit k =>
+    by_cases hk : k ∈ ts
+    · refine ⟨ts, hn, fun j hj => ?_⟩
+      rcases idle_stays hi h j hj with h1 | h1
+      · exact hcov j h1
+      · injection h1 with h1; subst h1; exact hk
+    · refine ⟨k :: ts, List.nodup_cons.mpr ⟨hk, hn⟩, fun j hj => ?_⟩
+      rcases idle_stays hi h j hj with h1 | h1
+      · exact List.mem_cons_of_mem _ (hcov j h1)
+      · injection h1 with h1; subst h1; exact List.mem_cons_self ..
+  | check k | send k | ctxReject k | take | exec k | cancel k | stop | drainEnd =>
+    refine ⟨ts, hn, fun j hj => ?_⟩
+    rcases idle_stays hi h j hj with h1 | h1
+    · exact hcov j h1
+    · cases h1
+
+theorem covered_run {c : Cfg} : ∀ (es : List Ev) (s s' : St), Inv c s → Covered s → run c s es = some s' → Covered s'
+  | [], s, s', _, hc, h => by simp only [run] at h; injection h with h; subst h; exact hc
+  | e :: es, s, s', hi, hc, h => by
+    simp only [run] at h
+    split at h
+    · rename_i s1 hs; exact covered_run es s1 s' (inv_step hi hs) (covered_step hi hc hs) h
+    · cases h
+
+theorem rank_idle {p : Phase} (h : rank p ≠ 0) : p ≠ .idle := by
+  intro e; subst e; exact h rfl
+
 end LinVerif.PoolQueue
